@@ -142,7 +142,7 @@ func init() {
 		ID:    "C06",
 		Level: "exploration",
 		Rule: "cases are template directories written to disk: a layout with 1..3 reserves placed at top level, inside @if branches or inside @each bodies (rendered once per pass), and 1..3 pages that @use it ('~name' or full spelling) and insert every subset of the reserves in block form (incl. an empty block), or expression form, with junk text around; four directory/extension settings; each page is rendered with two data maps and compared with the model (layout run with every reserve replaced by the model render of its insert). " +
-			"Fault trees: one and several undefined inserts, duplicate inserts, a missing layout, a layout that uses a layout - each must be reported at load or at render. directory settings include dotted names and spellings that need cleaning (configured as spelled), layout names with '~' and dots; reserve names with '~'/dots/case variants, duplicate inserts around @use; round 9: statements before @use, path spellings of layouts; scale: 65 reserves, several layouts; concurrent replay of page renders; round 10: data-less sequences, Response compared, percent texts; round 12: layout files beginning with BOM or CRLF, dot-named layout directories; round 14: reserves inside layout loops; round 15: dot-named template directories; distinct_nontrivial = distinct trees (by their sources) that hold at least one reserve and one page",
+			"Fault trees: one and several undefined inserts, duplicate inserts, a missing layout, a layout that uses a layout - each must be reported at load or at render. directory settings include dotted names and spellings that need cleaning (configured as spelled), layout names with '~' and dots; reserve names with '~'/dots/case variants, duplicate inserts around @use; round 9: statements before @use, path spellings of layouts; scale: 65 reserves, several layouts; concurrent replay of page renders; round 10: data-less sequences, Response compared, percent texts; round 12: layout files beginning with BOM or CRLF, dot-named layout directories; round 14: reserves inside layout loops; round 15: dot-named template directories; round 17: page names holding the text of the extension; distinct_nontrivial = distinct trees (by their sources) that hold at least one reserve and one page",
 		Assumptions: []string{
 			"insert bodies and layout text never contain control directives that would leave the insert; page-level statements outside inserts are never evaluated (they 'do not appear')",
 			"the package configuration is reset through the verif hook before every load",
